@@ -1137,6 +1137,51 @@ def on_open_hook(world):
     return f
 
 
+_CLASS_BASE = None
+
+
+def _class_snapshot():
+    import parso.python.tree as T
+    import parso.tree as BT
+    out = {}
+    for mod in (T, BT, pc):
+        for name, c in vars(mod).items():
+            if isinstance(c, type) and getattr(c, '__module__', '').startswith('parso'):
+                out[c] = {k: v for k, v in vars(c).items() if k != '__slotnames__'}
+    return out
+
+
+def poison_check(repair=True):
+    """Unpickling a damaged cache file can apply object state to parso's *classes*.  Returns a
+    description of what changed in the class dictionaries since the first call and undoes it."""
+    global _CLASS_BASE
+    if _CLASS_BASE is None:
+        _CLASS_BASE = _class_snapshot()
+        return []
+    changes = []
+    for c, base in _CLASS_BASE.items():
+        cur = {k: v for k, v in vars(c).items() if k != '__slotnames__'}
+        if cur.keys() != base.keys() or any(cur[k] is not base[k] for k in base):
+            for k in sorted(set(cur) - set(base)):
+                changes.append('%s.%s added' % (c.__name__, k))
+                if repair:
+                    try:
+                        delattr(c, k)
+                    except Exception:
+                        pass
+            for k in sorted(base):
+                if k in cur and cur[k] is not base[k]:
+                    changes.append('%s.%s replaced' % (c.__name__, k))
+                    if repair:
+                        try:
+                            setattr(c, k, base[k])
+                        except Exception:
+                            pass
+                elif k not in cur:
+                    changes.append('%s.%s removed' % (c.__name__, k))
+    return changes
+
+
 def execute(plan, generate=False):
     """Run one plan.  Returns dict(violation, events digest, counters, ...)."""
     with World(plan, generate=generate) as w:
@@ -1148,7 +1193,13 @@ def execute(plan, generate=False):
             n = w.fs.h_write(w.files[f], encode_text(init))
             w.versions.setdefault(f, []).append((n.data, n.mtime))
         w.now += plan['config'].get('warmup', 3.0)
+        poison_check()
         v = w.run()
+        poisoned = poison_check()
+        if poisoned and v is None:
+            v = Violation('process-state-corrupted', 'process-state-corrupted',
+                          'loading a cache file modified parso classes in this process (every later parse '
+                          'is affected): ' + ', '.join(poisoned[:6]))
         digest = hashlib.sha1(repr(w.events).encode()).hexdigest()
         return {
             'violation': v.as_dict() if v is not None else None,
